@@ -65,6 +65,14 @@ func BuildStaticWeightList(endpoints []endpoint.Endpoint) []int {
 		}
 	}
 
+	if maxWeight <= 0 {
+		// no endpoint has a positive weight: there is nothing to distribute by weight
+		return nil
+	}
+	if totalCapacity < 0 {
+		totalCapacity = 0
+	}
+
 	if minWeight > 0 {
 		maxRange = maxWeight / minWeight
 		if maxRange < minStaticWeightLimit {
